@@ -75,6 +75,7 @@ func sortInts(x []int) {
 // structured family and adds k in {0,1,3} leaves, then that block is undone. Exhaustive over the
 // family. The oracle is the one of the calling property.
 func tallFamily(c *Ctx, prop string) {
+	defer c.Phase("structured hist families (tall.go)")()
 	var or HistOracle
 	insts := stdInsts([]uint8{0, 63}, []string{"all"})
 	switch prop {
